@@ -1,48 +1,6 @@
 From Coq Require Import List NArith Bool Arith Lia.
 Import ListNotations.
-From Adeu Require Import Str Tree.
-
-(* _split_run_at_index after the D2 repair: partition the run's children at a text offset
-   (w:t / w:delText characters, w:tab, w:br count one; anything else is zero-width and stays where it occurs),
-   then merge adjacent text children of the same kind. *)
-Definition kid_len (k : rchild) : nat :=
-  match k with CT s | CDelT s => length s | CTab | CBr => 1 | _ => 0 end.
-(* k = characters still to go left; passed = a positive-length child has already gone right *)
-Fixpoint split_kids (k : nat) (passed : bool) (kids : list rchild) : list rchild * list rchild :=
-  match kids with
-  | [] => ([], [])
-  | kid :: rest =>
-    match kid with
-    | CT s =>
-        if length s <=? k then let '(l, r) := split_kids (k - length s) passed rest in (kid :: l, r)
-        else if (k =? 0) then let '(l, r) := split_kids 0 true rest in (l, kid :: r)
-        else let '(l, r) := split_kids 0 true rest in (CT (firstn k s) :: l, CT (skipn k s) :: r)
-    | CDelT s =>
-        if length s <=? k then let '(l, r) := split_kids (k - length s) passed rest in (kid :: l, r)
-        else if (k =? 0) then let '(l, r) := split_kids 0 true rest in (l, kid :: r)
-        else let '(l, r) := split_kids 0 true rest in (CDelT (firstn k s) :: l, CDelT (skipn k s) :: r)
-    | CTab | CBr =>
-        if 0 <? k then let '(l, r) := split_kids (k - 1) passed rest in (kid :: l, r)
-        else let '(l, r) := split_kids 0 true rest in (l, kid :: r)
-    | _ =>
-        if passed then let '(l, r) := split_kids k passed rest in (l, kid :: r)
-        else let '(l, r) := split_kids k passed rest in (kid :: l, r)
-    end
-  end.
-Fixpoint merge_text (kids : list rchild) : list rchild :=
-  match kids with
-  | CT a :: rest => match merge_text rest with CT b :: r' => CT (a ++ b) :: r' | r' => CT a :: r' end
-  | CDelT a :: rest => match merge_text rest with CDelT b :: r' => CDelT (a ++ b) :: r' | r' => CDelT a :: r' end
-  | x :: rest => x :: merge_text rest
-  | [] => []
-  end.
-Definition split_run (uid nu k : nat) (n : node) : option (list node) :=
-  match n with
-  | NRun u f kids => if Nat.eqb u uid
-                     then let '(l, r) := split_kids k false kids in Some [NRun u f (merge_text l); NRun nu f (merge_text r)]
-                     else None
-  | _ => None end.
-
+From Adeu Require Import Str Doc Prims Tree.
 (* ---- the split is invisible on the atom tape, in every mark context ---- *)
 Definition kids_atoms f st (kids : list rchild) := flat_map (kid_atoms f st) kids.
 Lemma merge_text_atoms f st kids : kids_atoms f st (merge_text kids) = kids_atoms f st kids.
@@ -89,6 +47,9 @@ Proof.
       destruct (k =? 0); cbn [flat_map kid_atoms].
       * rewrite LE. simpl. now rewrite IH.
       * rewrite LE, app_nil_r. rewrite IH. rewrite app_assoc, <- map_app, firstn_skipn. reflexivity.
+  - destruct (0 <? k).
+    + specialize (IH (k - 1) passed ltac:(intros E; rewrite (Hp E); reflexivity)). destruct (split_kids _ _ rest) as [l r]. cbn [flat_map]. now rewrite <- app_assoc, IH.
+    + specialize (IH 0 true ltac:(reflexivity)). destruct (split_kids 0 true rest) as [l r]. rewrite LE in IH |- *. simpl in IH |- *. now rewrite IH.
   - destruct (0 <? k).
     + specialize (IH (k - 1) passed ltac:(intros E; rewrite (Hp E); reflexivity)). destruct (split_kids _ _ rest) as [l r]. cbn [flat_map]. now rewrite <- app_assoc, IH.
     + specialize (IH 0 true ltac:(reflexivity)). destruct (split_kids 0 true rest) as [l r]. rewrite LE in IH |- *. simpl in IH |- *. now rewrite IH.
